@@ -1,6 +1,7 @@
 """C05 — packing contract / enabled_coefficients truthful."""
 import astprops
 import corpus
+import valprops
 
 EXTRA = [
     corpus._c("c05_derivative_drops_coef", '''
@@ -23,16 +24,29 @@ objs=[(f+g-f)*v*dx + h*v*ds]'''),
 m=mesh("tetrahedron"); V=space(m,"P",1); W=space(m,"P",2); v=TestFunction(V); f=Coefficient(V); g=Coefficient(W); h=Coefficient(V)
 K=Constant(m,shape=(3,3)); b=Constant(m,shape=(3,)); s=Constant(m)
 objs=[f*v*dx(1) + g*v*dx(2) + h*inner(K*grad(v),b)*ds(1) + s*avg(g)*avg(v)*dS]'''),
+    # sub-functions of a mixed coefficient on both sides of an interior facet, next to other coefficients
+    corpus._c("c05_mixed_coefficient_both_sides", '''
+m=mesh("triangle"); E=basix.ufl.mixed_element([el("P","triangle",2), el("P","triangle",1)]); W=FunctionSpace(m,E); w=Coefficient(W); (q,p)=split(w)
+V=space(m,"P",1,shape=(2,)); g=Coefficient(V); f=Coefficient(space(m,"P",1)); v=TestFunction(space(m,"DP",1))
+objs=[f*dx + (7*q('+') + 5*p('+') + 3*q('-') + 2*p('-') + 11*g('-')[0] + 13*g('+')[1])*dS, (p('-')*q('+') + f('-'))*v('+')*dS + g[0]*p*v*ds]'''),
     corpus._c("c05_interior_facet_two_coefs", '''
 m=mesh("triangle"); V=space(m,"DP",1); W=space(m,"DP",2); u,v=TrialFunction(V),TestFunction(V); f=Coefficient(W); g=Coefficient(V)
 objs=[f('-')*g('+')*jump(u)*jump(v)*dS + g*u*v*dx]'''),
 ]
 
 
+def slot_values(v, tier, seed):
+    """which slot of w each value is read from: the kernels of the cases above against the oracle, which lays w out as
+    the contract says (coefficient k at offset_k, on interior facets the '+' block of the whole element, then the '-' block)"""
+    res = valprops.run_oracle(EXTRA, seed, entity_mode="random")
+    st = valprops.account(v, res, "c05", what="kernel reads a coefficient / constant value from another slot than the packing contract says")
+    return {"slot_layout_vs_oracle": st}
+
+
 def run(v, tier, seed, g):
     return astprops.run_ast_property(
         v, tier, seed, g, "safe_enabled", "C05", astprops.search_poison_counterexample,
-        "kernel reads coefficient storage outside the enabled/packed ranges", extra_pinned=EXTRA,
+        "kernel reads coefficient storage outside the enabled/packed ranges", extra_pinned=EXTRA, extra_run=slot_values,
         extra_assumptions=["UFL's reduced_coefficients / enabled_coefficients are taken as the form's surviving coefficients"])
 
 
